@@ -1,5 +1,6 @@
 """Harness classes for the JSON checks (module level so that their fully qualified names resolve)."""
 import datetime
+import uuid
 from dataclasses import dataclass
 from typing import Any
 
@@ -31,6 +32,22 @@ class B(A):
 @dataclass
 class C(B):
     pass
+
+
+@dataclass
+class It(A):
+    """A serialisable object that is itself iterable (a container-like value such as a path of waypoints)."""
+
+    def __iter__(self):
+        return iter((self.x, self.y))
+
+
+class MyUUID(uuid.UUID):
+    """Neither a SubclassJSONSerializer nor registered - but a subclass of a type the library registers."""
+
+
+class Stamp(datetime.date):
+    """The same for a type the application registered (datetime.date, below)."""
 
 
 class Plain:
